@@ -25,7 +25,7 @@ import numpy as np
 
 from ..core import Check, MachineryError, repo_setup
 
-LEVEL = "model_checking"
+LEVEL = "other"
 
 FP_UNIT = 1e-9                 # fixed-point resolution of energy differences handed to TLC
 FP_CAP = 10 ** 9               # cap (1 Hartree) - keeps every TLC integer below 2^31
